@@ -596,9 +596,10 @@ PROPS = {
                              {"kind": "cli", "name": "target", "profile": "target", "count": {"quick": 32, "thorough": 300}, "salt": 43}],
                      ["'delivered' = taken up by the controller's select loop (the abort turn); a request sent while completions are queued may be taken up after some of them (DESIGN 3, C04)"]),
     "C05": _run_prop("C05", [{"kind": "run", "name": "mixed", "profile": "mixed", "count": {"quick": 320, "thorough": 4000}, "salt": 5},
-                             {"kind": "meta", "name": "inproc", "profile": "inproc", "count": {"quick": 24, "thorough": 400}, "salt": 51}],
+                             {"kind": "meta", "name": "inproc", "profile": "inproc", "count": {"quick": 24, "thorough": 400}, "salt": 51},
+                             {"kind": "cli", "name": "conc", "profile": "conc", "count": {"quick": 16, "thorough": 120}, "salt": 52}],
                      None, ["threaded in-process path: sync_launch::launch with in_process_computation and a rendezvous objective function (num_concurrent 1, small, = hardware threads, hardware threads + 3, twice the hardware threads): the peak number of calls in progress equals min(num_concurrent, budget) and never exceeds num_concurrent; the thread-pool size is not modelled",
-                            "child-process path: the cli stream of C07/C16 (pids of concurrently running children are not compared)"]),
+                            "child-process path through the binary (cli stream, profile conc): the first min(num_concurrent, N) children wait for one another (10 s give-up); none gives up"]),
     "C06": _run_prop("C06", [{"kind": "run", "name": "fail", "profile": "fail", "count": {"quick": 320, "thorough": 4000}, "salt": 6},
                              {"kind": "cli", "name": "results", "profile": "results", "count": {"quick": 32, "thorough": 300}, "salt": 61},
                              {"kind": "cli", "name": "failabort", "profile": "failabort", "count": {"quick": 16, "thorough": 150}, "salt": 62},
